@@ -168,6 +168,15 @@ Theorem C04_wrapper_transparent : forall stk r o s,
   log (fst (exec stk r o s)) = rev (log_of stk o) ++ log s.
 Proof. exact wrapper_transparent. Qed.
 
+(* (round 5) debug.New(store, nil, filters...) - no access callback: whatever the filters, the wrapper is the one with the
+   zero mask; it adds nothing to the log (and is transparent like every other stack, by C04_wrapper_transparent). *)
+Theorem C04_debug_nil_callback : forall id stk o,
+  debug_mask nocb_filters = 0%N /\ log_of (WDebug id (debug_mask nocb_filters) :: stk) o = log_of stk o.
+Proof.
+  intros id stk o. split; [reflexivity|].
+  change (debug_mask nocb_filters) with 0%N. unfold log_of. destruct (cmd_of o) as [[c ps]|]; reflexivity.
+Qed.
+
 (* flushkv is flush-on-write: one Flush reaches the store per flushkv wrapper after each successful mutation. *)
 Theorem C04_flush_on_write : forall stk r o s,
   nfl (fst (exec stk r o s)) = (nfl s + flushes_of stk o (snd (exec [] r o s)))%nat.
@@ -241,4 +250,5 @@ Print Assumptions C04_closed_world_all_fail.
 Print Assumptions C04_close_spec.
 Print Assumptions C04_closed_state_frozen.
 Print Assumptions C04_wrapper_transparent.
+Print Assumptions C04_debug_nil_callback.
 Print Assumptions C04_flush_on_write.
